@@ -41,7 +41,7 @@ package parser
 //@
 //@ func (*Parser).parseNotationInComments(p, notations, validOps, opts) (err)
 //@   requires wfParser(p) && wfNotes(notations) && option.optsInv(*opts) && tight(*opts)
-//@   effects log, stdout
+//@   effects log
 //@   assigns *opts
 //@   ensures {C09,C14} option.optsInv(*opts) && disjoint(opts.NameMapper, opts.TemplatedNameMapper)
 //@   ensures {C09} err == nil ==> opts.ExactCase == toggleAfter(old(opts.ExactCase), notations, validOps, len(notations), "case", "case:off")
@@ -137,7 +137,7 @@ package parser
 //@
 //@ func (*Parser).parseMethod(p, method, opts) (m, err)
 //@   requires wfParser(p) && p.file != nil && method != nil && option.optsInv(opts) && tight(opts)
-//@   effects log, stdout
+//@   effects log
 //@   assigns all(ast.CommentGroup.List), all(ast.GenDecl.Doc), all(ast.FuncDecl.Doc), all(ast.TypeSpec.Doc), all(ast.Field.Doc)
 //@   ensures {C14,C09} err == nil ==> m != nil && fresh(m) && m.Method == method && option.optsInv(m.Opts)
 //@   ensures {C14,C08,C03} err == nil ==> is(objType(method), *types.Signature) && nPar(objSig(method)) > 0 && nRes(objSig(method)) > 0
@@ -158,7 +158,7 @@ package parser
 //@
 //@ func (*Parser).parseMethods(p, intf) (r, err)
 //@   requires wfParser(p) && p.file != nil && wfIntf(intf)
-//@   effects log, stdout, stderr
+//@   effects log, stderr
 //@   assigns all(ast.CommentGroup.List), all(ast.GenDecl.Doc), all(ast.FuncDecl.Doc), all(ast.TypeSpec.Doc), all(ast.Field.Doc)
 //@   ensures {C14,C08,C17,C03} err == nil ==> len(r) == msetLen(ifaceMethods(intf))
 //@   ensures {C14,C08,C17} err == nil ==> forall(i, 0, len(r), r[i] != nil && r[i].Method == nthMethod(intf, i) && option.optsInv(r[i].Opts))
@@ -177,7 +177,7 @@ package parser
 //@
 //@ func (*Parser).findConvergenEntries(p) (r, err)
 //@   requires wfP(p)
-//@   effects log, stdout, random
+//@   effects log, random
 //@   assigns all(ast.CommentGroup.List), all(ast.GenDecl.Doc), all(ast.FuncDecl.Doc), all(ast.TypeSpec.Doc), all(ast.Field.Doc)
 //@   ensures {C17,C14} err == nil ==> len(r) > 0
 //@   ensures {C17,C09,C14} forall(i, 0, len(r), wfIntf(r[i]) && isIface(r[i].intf) && inFile(p, r[i].intf))
@@ -210,12 +210,13 @@ package parser
 //@
 //@ func (*Parser).Parse(p) (r, err)
 //@   requires wfP(p)
-//@   effects log, stdout, stderr, random
+//@   effects log, stderr, random
 //@   assigns p.intfEntries, all(ast.CommentGroup.List), all(ast.GenDecl.Doc), all(ast.FuncDecl.Doc), all(ast.TypeSpec.Doc), all(ast.Field.Doc), all(option.FieldConverter.argType), all(option.FieldConverter.retType), all(option.FieldConverter.retError)
 //@   ensures {C17,C08,C14,C03} err == nil ==> len(r) == len(p.intfEntries) && len(r) > 0
 //@   ensures {C17,C08,C13} err == nil ==> forall(i, 0, len(r), r[i] != nil && r[i].Marker == p.intfEntries[i].marker && len(r[i].Methods) == msetLen(ifaceMethods(p.intfEntries[i])))
 //@   ensures {C17,C14} err == nil ==> forall(i, 0, len(p.intfEntries), wfIntf(p.intfEntries[i]) && isIface(p.intfEntries[i].intf) && inFile(p, p.intfEntries[i].intf))
 //@   ensures {C14} err != nil ==> r == nil
+//@   ensures wfP(p)
 //@   loop 1 invariant $k <= len(entries) && len(list) == $k && (list == nil || fresh(list)) && sameOld(list)
 //@   loop 1 invariant (allMethods == nil || fresh(allMethods)) && sameOld(allMethods)
 //@   loop 1 invariant forall(i, 0, len(entries), wfIntf(entries[i]) && isIface(entries[i].intf) && inFile(p, entries[i].intf))
@@ -245,3 +246,21 @@ package parser
 //@   ensures {C12,C14} e == nil ==> p != nil && fresh(p) && wfP(p) && p.intfEntries == nil
 //@   ensures {C12,C14} e != nil ==> p == nil
 //@   check {C12,C03} e != nil ==> isFsErr(e) || hasPrefix(errmsg(e), srcPath + ": failed to load type information: \n") || errmsg(e) == srcPath + ": failed to load package information" || (*fileSrc == nil && *parseErr != nil && errmsg(e) == srcPath + ": " + fmt_v(*parseErr))
+
+// ---- base code (C03, C11, C13) ------------------------------------------------------------------------------------------------------
+// The frame is the C11 statement for this function: comment groups and their lists are the only parts of the
+// parsed file it writes; declarations, imports and every other node are outside the assigns clause. It performs
+// no logging and no file-system access (no effects clause).
+
+//@ spec markerRe(m string) string = ".+" + quoteMeta(m) + ".*(\n|.)*?" + quoteMeta(m)
+//@
+//@ func (*Parser).GenerateBaseCode(p) (code, err)
+//@   requires wfP(p) && forall(i, 0, len(p.intfEntries), p.intfEntries[i] != nil && p.intfEntries[i].intf != nil)
+//@   assigns p.file.Comments, arrays(*ast.CommentGroup), all(ast.CommentGroup.List), arrays(*ast.Comment)
+//@   atcall InsertComment: {C03,C11,C13} $arg0 == p.file && $arg1 == p.intfEntries[$k].marker
+//@   atcall MustCompile: {C03,C13} $arg0 == markerRe(p.intfEntries[$k].marker)
+//@   atcall ReplaceAllString: {C03,C13} $arg2 == p.intfEntries[$k].marker
+//@   use forall(i, 0, len(p.intfEntries), R6valid(p.intfEntries[i].marker))
+//@   loop 1 invariant $k <= len(p.intfEntries) && p.file == old(p.file) && p.intfEntries == old(p.intfEntries) && sameOld(p.intfEntries)
+//@   loop 2 invariant $k <= len(nodes)
+//@   loop 3 invariant $k <= len(p.intfEntries) && p.intfEntries == old(p.intfEntries) && sameOld(p.intfEntries)
